@@ -633,12 +633,12 @@ impl PairCase {
 /// hand-built histories that put the pending protocol fee exactly at, one below and one above the collection threshold
 pub fn threshold_corpus() -> Vec<PairCase> {
     let mut v = vec![];
-    for (kinds, t) in [([false, false], 1000u128), ([false, true], 1000), ([true, false], 1001), ([false, false], 999), ([true, true], 1000), ([false, false], 1001)] {
+    for (kinds, t) in [([false, false], 1000u128), ([false, true], 1000), ([true, false], 1001), ([false, false], 999), ([true, true], 1000), ([false, false], 1001), ([false, false], 1002), ([true, false], 1002)] {
         for dir in [false, true] {
             // pool 1e12/1e12, protocol fee 0.1 %: gross in [t*1000, t*1000+999] gives a protocol fee of exactly t
             let x = t * 1000 + 500 + t; // gross = x - x^2/(1e12+x) ~ x - 1
             let ms = Some(DEC / 2);
-            v.push(PairCase { kinds, fab: !kinds[1] && t == 1001, decs: [6, 6], fees: (DEC / 1000, 3 * DEC / 1000, DEC / 500), ops: vec![
+            v.push(PairCase { kinds, fab: !kinds[1] && t >= 1001, decs: if t == 1002 { [6, 7] } else { [6, 6] }, fees: (DEC / 1000, 3 * DEC / 1000, DEC / 500), ops: vec![
                 POp::Provide { who: 1, d0: 1_000_000_000_000, d1: 1_000_000_000_000, tol: None, receiver: None },
                 POp::Swap { who: 2, dir, x, belief: None, max_spread: ms, to: None },
                 POp::Collect { who: 3 },
